@@ -384,3 +384,85 @@ Section Generic.
     destruct (run_iters_sound _ _ _ _ _ _ Hr) as (_ & _ & _ & _ & Sg). auto.
   Qed.
 End Generic.
+
+(** * The rational instance: the existing C17 model applies to the generated chain *)
+Section HistoryZ.
+Local Open Scope Z_scope.
+Lemma history_fkeep nb : forall (all pre : list (list (list Q * Q * Q))),
+  map (chain_q (pre ++ all))
+      (filter (fun k => keep k nb) (zrange (1 + Z.of_nat (length pre)) (1 + Z.of_nat (length pre) + Z.of_nat (length all))))
+  = map (map cell_q) (fkeep nb (1 + Z.of_nat (length pre)) all).
+Proof.
+  induction all as [|d r IH]; intros pre.
+  - simpl. rewrite zrange_nil by lia. reflexivity.
+  - rewrite (zrange_cons (1 + Z.of_nat (length pre))) by (simpl length; lia).
+    assert (E : chain_q (pre ++ d :: r) (1 + Z.of_nat (length pre)) = map cell_q d).
+    { unfold chain_q. replace (1 <=? 1 + Z.of_nat (length pre)) with true by lia.
+      replace (Z.to_nat (1 + Z.of_nat (length pre) - 1)) with (length pre) by lia.
+      rewrite app_nth2 by lia. now rewrite Nat.sub_diag. }
+    specialize (IH (pre ++ [d])). rewrite <- app_assoc in IH. simpl app in IH.
+    rewrite app_length in IH. simpl length in IH.
+    replace (1 + Z.of_nat (length pre + 1)) with (1 + Z.of_nat (length pre) + 1) in IH by lia.
+    replace (1 + Z.of_nat (length pre) + 1 + Z.of_nat (length r))
+      with (1 + Z.of_nat (length pre) + Z.of_nat (length (d :: r))) in IH by (simpl length; lia).
+    cbn [filter fkeep]. destruct (keep (1 + Z.of_nat (length pre)) nb).
+    + cbn [map]. rewrite E. f_equal. exact IH.
+    + exact IH.
+Qed.
+End HistoryZ.
+
+(** (a): [history] of the existing C17 model on the generated chain IS what the composed run appends to the histories *)
+Theorem generated_history add mul ofQ decide att regv regsum scf acf nb random_order n_ind orders init scales tp o :
+  personalize_run Q add mul ofQ decide att regv regsum scf acf nb random_order n_ind orders init scales tp = Done o ->
+  length (o_all o) = length orders /\
+  history (chain_q (o_all o)) (Z.of_nat (length orders)) nb = map (map cell_q) (o_hist o).
+Proof.
+  intros H. destruct (run_records _ _ _ _ _ _ _ _ _ _ _ _ _ _ _ _ _ _ H) as (L & Hh).
+  split; [exact L|]. rewrite Hh. unfold history, kept_iterations, iterations.
+  pose proof (history_fkeep nb (o_all o) []) as E. cbn [app] in E. rewrite <- L.
+  replace (Z.of_nat (length (o_all o)) + 1)%Z with (1 + Z.of_nat (@length (list (list (list Q * Q * Q))) []) + Z.of_nat (length (o_all o)))%Z
+    by (cbn [length]; lia).
+  exact E.
+Qed.
+
+(** the decision of a rational run: accepted exactly when u < exp(-D) on the images *)
+Lemma decideQR_iff u pa na pr nr tinv :
+  decideQR u pa na pr nr tinv = true <->
+  (Q2R u < exp (- ((Q2R na - Q2R pa) + Q2R tinv * (Q2R nr - Q2R pr))))%R.
+Proof. unfold decideQR, decideR. rewrite acceptb_true_iff, alpha_eq. reflexivity. Qed.
+
+(** * The real instance is C03's individual step *)
+Lemma decisions_R tinv : forall pa na pr nr us,
+  decisions R decideR tinv pa na pr nr us =
+  match alphas tinv pa na pr nr with
+  | Some al => group_accept al us
+  | None => None
+  end.
+Proof.
+  induction pa as [|a pa IH]; intros [|b na] [|c pr] [|d nr] us; simpl; try reflexivity.
+  destruct us as [|u us].
+  - destruct (alphas tinv pa na pr nr); reflexivity.
+  - rewrite IH. destruct (alphas tinv pa na pr nr) as [al|]; [|reflexivity]. simpl.
+    destruct (group_accept al us) as [[bs r]|]; reflexivity.
+Qed.
+
+Lemma gmix_R : forall acc old new, gmix R acc old new = mix_rows acc old new.
+Proof. induction acc as [|b acc IH]; intros [|o old] [|n new]; simpl; auto. Qed.
+
+(** [gstep] on the carrier R with C03's rule = [ind_step] of C03 for variable [v], the fresh attachment / regularity being read
+    on the state in which only that variable changes *)
+Theorem gstep_is_ind_step att regv v tinv sds st tp x :
+  nth_error st v = Some x ->
+  gstep R Rplus Rmult decideR att regv v tinv sds st tp =
+  match ind_step (fun y => att (set_nth v y st)) (fun y => regv v (set_nth v y st)) tinv sds x tp with
+  | Some (y, tp', acc) => Some (set_nth v y st, tp', acc)
+  | None => None
+  end.
+Proof.
+  intros Hv. unfold gstep, ind_step. rewrite Hv. destruct x as [s|rows]; [reflexivity|].
+  destruct (add_noise_rows Rplus Rmult sds rows (normals tp)) as [[rows' zs']|]; [|reflexivity].
+  rewrite (set_nth_id v (Nd rows) st Hv). rewrite decisions_R.
+  destruct (alphas tinv (att st) (att (set_nth v (Nd rows') st)) (regv v st) (regv v (set_nth v (Nd rows') st))) as [al|]; [|reflexivity].
+  destruct (group_accept al (uniforms tp)) as [[acc us']|]; [|reflexivity].
+  destruct (Nat.eqb (length acc) (length rows)); [|reflexivity]. now rewrite gmix_R.
+Qed.
